@@ -130,8 +130,8 @@ def run_replay_file(rep, bins, wd, path, devs):
     rep.finish()
 
 
-def trace_cfg(wd, devs):
-    return write_cfg(wd, "trace.cfg", "TraceSpec",
+def trace_cfg(wd, devs, name="trace.cfg"):
+    return write_cfg(wd, name, "TraceSpec",
                      {"InitCap": "<- TraceInitCap", "MaxCap": "<- TraceMaxCap", "MaxWrites": 1000000000,
                       "MaxInjects": 1000000000, "MaxInFlight": 1000000000, "MaxChunks": 0, "Bounded": True,
                       "History": True, "Deviations": devs},
@@ -188,9 +188,9 @@ def run(tier, replay=None):
                    InjShort=[7], InjOver=[33])
     tlc_job("live_rx", "Channel", write_cfg(wd, "live_rx.cfg", "FairSpec", live_rx, invariants=SAFETY_RX,
                                             properties="P_C11_Live"), workers=2, timeout=2400)
-    live_e2e = dict(geometry(16, 32), Scope="e2e", WriteSizes=[8, 20, 32, 33], MaxWrites=2 if thorough else 1,
-                    MaxInjects=1, MaxInFlight=2, Canonical=True, LazyInject=True, Bounded=True, History=True,
-                    InjUndec=[12], InjShort=[7])
+    live_e2e = dict(geometry(16, 32), Scope="e2e", WriteSizes=[20, 32, 33] if thorough else [20, 33],
+                    MaxWrites=2 if thorough else 1, MaxInjects=1, MaxInFlight=2, Canonical=True, LazyInject=True,
+                    Bounded=True, History=True, InjUndec=[12], InjShort=[] if thorough else [7])
     tlc_job("live_e2e", "Channel", write_cfg(wd, "live_e2e.cfg", "FairSpec", live_e2e,
                                              invariants=SAFETY_RX + " P_C11_History P_C11_WriteAccepted",
                                              properties="P_C11_Live P_C11_DeliverHead"), workers=2, timeout=2400)
@@ -233,7 +233,6 @@ def run(tier, replay=None):
             (12, 40, 30 if not thorough else 200, 200)]
     if thorough:
         geos.append((4096, 65536, 60, 400))
-    tcfg = trace_cfg(wd, devs)
     drive_jobs = []
     for (gi, gm, runs, steps) in geos:
         def drive(gi=gi, gm=gm, runs=runs, steps=steps):
@@ -241,7 +240,7 @@ def run(tier, replay=None):
             out = vlib.run_harness(bins["drive_channel"], ["--seed", str(seed), "--runs", str(runs), "--steps", str(steps),
                                                            "--init", str(gi), "--max", str(gm), "--out", tp])
             summ = [o for o in out if o.get("kind") == "summary"][0]
-            r = vlib.tlc_trace("Trace_Channel", tcfg, PID, tp, timeout=1500)
+            r = vlib.tlc_trace("Trace_Channel", trace_cfg(wd, devs, "trace_%d_%d.cfg" % (gi, gm)), PID, tp, timeout=1500)
             return tp, summ, r
         drive_jobs.append(pool.submit(drive))
 
@@ -288,6 +287,16 @@ def run(tier, replay=None):
             seen.add(key)
             rep.violation(v["class"], "; ".join(v["problems"])[:280], v,
                           name="behaviour_%s_%s_%d.json" % (v["class"], v["op"].get("op"), len(rep.violations)))
+    # one replayed behaviour, compactly, as a sample
+    try:
+        b = json.loads(open(gen_files[0]).readline())
+        def show(st):
+            a = st.get("len", st.get("chunks", st.get("k", "")))
+            return "%s(%s)%s" % (st["op"], a, ("->" + st["res"]) if st.get("res") else "")
+        rep.add_samples(["behaviour init=%d max=%d: %s ... final %s" % (
+            b["init"], b["max"], " ".join(show(x) for x in b["steps"][:28]), json.dumps(b["steps"][-1]["st"]))], 1)
+    except (ValueError, KeyError, IndexError, OSError):
+        pass
     need = {"Write/ok", "Write/too_large", "Writable/ok", "Readable/ok", "ReadMessage/ok", "ReadMessage/nothing_read",
             "ReadMessage/under_delimiter", "ReadMessage/invalid_protobuf", "ReadMessage/too_large", "Inject/", "WireMove/"}
     if not rep.violations and not need <= classes:
@@ -329,7 +338,7 @@ def run(tier, replay=None):
             lines[k] = json.dumps(e)
             cp = os.path.join(wd, "trace_canary.ndjson")
             open(cp, "w").write("\n".join(lines) + "\n")
-            r = vlib.tlc_trace("Trace_Channel", tcfg, PID, cp, timeout=900)
+            r = vlib.tlc_trace("Trace_Channel", trace_cfg(wd, devs, "trace_canary.cfg"), PID, cp, timeout=900)
             if r["accepted"] or r["consumed"] != k:
                 raise vlib.ToolError("canary: a corrupted trace was not rejected at the corrupted event (%s vs %s)" % (r["consumed"], k))
             vlib.log("canary trace rejected at event %d as expected" % (k + 1))
